@@ -89,6 +89,25 @@ pub mod vchan {
         waiting: usize,
         /// how many more times an empty-queue `recv_timeout` answers Timeout before it blocks
         timeouts_left: usize,
+        /// set by `expire_all`: from now on an empty-queue `recv_timeout` answers Timeout (the real timeout always fires
+        /// eventually; the harness says "eventually is now" once nothing more will be sent)
+        expired: bool,
+    }
+    /// the channels of the current execution, so that the harness can let their timeouts fire without owning them
+    /// (plain std mutex, never held across a loom scheduling point; cleared at both ends of every execution)
+    static REGISTRY: std::sync::Mutex<Vec<Box<dyn Fn() + Send>>> = std::sync::Mutex::new(Vec::new());
+    pub fn registry_clear() {
+        REGISTRY.lock().unwrap().clear();
+    }
+    /// every blocked or future empty-queue `recv_timeout` of this execution answers Timeout. The flag is written under the
+    /// channel's own (loom) mutex, so a worker that gets the answer also sees everything the caller wrote before -- which is
+    /// what a real 10 ms timeout guarantees in practice for a Relaxed flag.
+    pub fn expire_all() {
+        let fs = std::mem::take(&mut *REGISTRY.lock().unwrap());
+        for f in &fs {
+            f();
+        }
+        *REGISTRY.lock().unwrap() = fs;
     }
     /// per-configuration budget of Timeout answers per channel (set before the model runs; plain std atomic, read once per
     /// channel creation, so it is the same in every explored execution)
@@ -115,8 +134,13 @@ pub mod vchan {
         Empty,
         Disconnected,
     }
-    pub fn bounded<T>(cap: usize) -> (Sender<T>, Receiver<T>) {
-        let i = Arc::new(Inner { st: Mutex::new(St { q: VecDeque::new(), senders: 1, receivers: 1, waiting: 0, timeouts_left: TIMEOUT_BUDGET.load(std::sync::atomic::Ordering::Relaxed) }), cv: Condvar::new(), cap });
+    pub fn bounded<T: Send + 'static>(cap: usize) -> (Sender<T>, Receiver<T>) {
+        let i = Arc::new(Inner { st: Mutex::new(St { q: VecDeque::new(), senders: 1, receivers: 1, waiting: 0, timeouts_left: TIMEOUT_BUDGET.load(std::sync::atomic::Ordering::Relaxed), expired: false }), cv: Condvar::new(), cap });
+        let j = i.clone();
+        REGISTRY.lock().unwrap().push(Box::new(move || {
+            j.st.lock().unwrap().expired = true;
+            j.cv.notify_all();
+        }));
         (Sender(i.clone()), Receiver(i))
     }
     impl<T> Sender<T> {
@@ -179,6 +203,9 @@ pub mod vchan {
                 // queue empty; which moment of the trace that is varies over the explored schedules
                 if g.timeouts_left > 0 {
                     g.timeouts_left -= 1;
+                    return Err(RecvTimeoutError::Timeout);
+                }
+                if g.expired {
                     return Err(RecvTimeoutError::Timeout);
                 }
                 g.waiting += 1;
